@@ -124,7 +124,20 @@ def rule_unchecked_sites(ctx, rule="C20-unchecked"):
                     acs = anchor_callers(F, path)
                     audited = bool(acs) and all(_audited(a, nme) is not None for a in acs)
                     lifted = audited
-                ctx.ob(rule, path, "audited:" + nme.rsplit("::", 1)[-1], audited, how=_audited(path, nme) or "moved into a helper called only from audited functions", line=t.get("line", 0),
+                justified = None
+                if not audited and nme in ("core::str::<impl str>::get_unchecked", "core::str::<impl str>::get_unchecked_mut") and len(t["args"]) == 2:
+                    # a hint that carries its own proof: text.get_unchecked(x..) / (..x) behind a real
+                    # (non-debug) `text.is_char_boundary(x)` test - which also bounds x by the length
+                    norm = lambda d: d.replace("repr::Repr::as_str_mut(", "repr::Repr::as_str(")
+                    txt = norm(describe(b, b.origin_operand(t["args"][0])))
+                    m = re.match(r"^core::ops::range::Range(From|To)::Range(From|To)\{(.*)\}$", describe(b, b.origin_operand(t["args"][1])))
+                    if m:
+                        for g in guards_at(b, bb):
+                            if g[0] == "pred" and g[1] == "core::str::<impl str>::is_char_boundary" and g[3] is True and len(g) > 5 and len(g[5]) == 2:
+                                if norm(describe(b, g[5][0])) == txt and describe(b, g[5][1]) == m.group(3):
+                                    justified = "behind %s.is_char_boundary(%s)" % (txt, m.group(3))
+                    audited = justified is not None
+                ctx.ob(rule, path, "audited:" + nme.rsplit("::", 1)[-1], audited, how=_audited(path, nme) or justified or "moved into a helper called only from audited functions", line=t.get("line", 0),
                        detail="new `%s` site in %s is not in the audited table: its precondition holds only by an argument nobody wrote down; in release builds a violated hint is undefined behaviour" % (nme, path))
                 for a in ([path] if path in anchors(F) and b.j["kind"] != "closure" else sorted(anchor_callers(F, path))):
                     req = REQUIRED_GUARD.get((a, nme))
